@@ -58,6 +58,7 @@ type Event map[string]interface{}
 
 // run is one execution of the real scheduler under the controlled Runner.
 type run struct {
+	patient bool // confirmation run: alone, with long settle times and deadlines
 	cfg     Config
 	names   []string       // names[i] for stage i (1-based; names[0] unused)
 	byName  map[string]int // root-graph names only (labels may repeat inside the nested pipeline)
@@ -423,6 +424,9 @@ func (r *run) quiesce(released map[int]bool, deadline time.Duration) (st []strin
 		settle := 200 * r.pause
 		if settle < 400*time.Millisecond {
 			settle = 400 * time.Millisecond
+		}
+		if r.patient && settle < 3*time.Second {
+			settle = 3 * time.Second
 		}
 		lastPass := time.Now()
 		lp0, lp1 := p0, p1
